@@ -66,6 +66,14 @@ def run(run_, tier):
     solv_model.projection_solvers(run_, it, "C04")
     it2 = integ_interp(run_)
     integrator_trace(run_, it2)
+    # constr / jacob_constr / gram reach the solvers and projections through the state cache: its transparency (C09 layer 1,
+    # incl. pickle round trips and copies) is a premise of "the residual that was tested is the residual of the returned position"
+    from . import c09
+    from ..pyvc import Interp
+    from .integ_model import install_std
+    it3 = Interp(run_)
+    install_std(it3)
+    c09.protocol(run_, it3, "C09")
     try:
         from . import symla_systems
         symla_systems.c04_obligations(run_, tier)
